@@ -42,6 +42,16 @@ def program(rng, tier):
             else:
                 idx = str(rng.choice([0, 0, 1, max(0, n - 1), n, n + 1, n + 7, 1000, 10 ** 6]))
             lines.append('ab_ndarr %s %s %s %s' % (rng.choice(DTYPES), lst([str(x) for x in shape]), k, idx))
+            if rank >= 1 and rng.random() < 0.7:
+                # the same storage addressed with another element type: the last partial slot, the first index past it
+                SZ = {'Bool': 1, 'Int8': 1, 'UInt8': 1, 'Int16': 2, 'UInt16': 2, 'Int32': 4, 'UInt32': 4, 'Float': 4, 'Int64': 8, 'UInt64': 8, 'Double': 8}
+                dt, at = rng.choice(DTYPES), rng.choice(DTYPES)
+                shape2 = [rng.choice([1, 2, 3, 5, 7, 10])] + shape[1:]
+                n2 = 1
+                for x in shape2: n2 *= x
+                q = n2 * SZ[dt] // SZ[at]
+                for i in sorted({max(0, q - 1), q, q + 1, rng.choice([0, 1, 2])}):
+                    lines.append('ab_ndarrw %s %s %s %s %d' % (dt, lst([str(x) for x in shape2]), at, rng.choice(['geti', 'seti']), i))
         elif q < 0.8:
             rank = rng.randint(1, 3)
             shape = [rng.choice([1, 2, 3, 5]) for _ in range(rank)]
@@ -53,6 +63,9 @@ def program(rng, tier):
             col = rng.choice(['~', '0', str(nc - 1), str(nc), str(nc + 1), str(nc + 7), '4294967295'])
             dflt = rng.choice(['~', '~', '0', str(nc - 1)])
             lines.append('ab_fdim %d %d %s %s' % (nc, rng.choice([0, 1, 3]), col, dflt))
+    for kind in ('T', 'M'):
+        for _ in range(2):
+            lines.append('ab_tagidx %s %s %s' % (kind, rng.choice(['0', '1', '1', '2', '4294967296', '18446744073709551615']), rng.choice(['0', '1', '1', '2', '18446744073709551615'])))
     return lines
 
 def cases(tier, seed, rng):
